@@ -270,6 +270,77 @@ def check_loop(ctx, case):
     return 1
 
 
+def script_suite(ctx):
+    """history-independence of acceptance: the same gate several times in one pass, the decomposer proposing a correct
+    list for the earlier occurrences and a near-miss (one angle off by 1e-6..1e-3, below the resolution of repr) or the
+    correct list again for a later one; the pass must fail exactly when some proposal is rejected on its own"""
+    rng = ctx.rng
+    n_cases = 0
+    for _ in range(ctx.pick(120, 1200)):
+        nq = rng.randint(1, 3)
+        r = rng.random()
+        q = rng.randrange(nq)
+        if r < 0.5:
+            gs = ["named", rng.choice(gen.ONEQ_NOPARAM), [q]]
+        else:
+            gs = ["bsr", q, gen.rand_axis(rng), rng.uniform(-PI, PI), rng.uniform(-PI, PI)]
+        exact = exact_decomposition(rng, gs)
+        if not exact:
+            continue
+        reps = rng.randint(2, 4)
+        k = rng.randrange(1, reps)
+        cand_idx = [i for i, sp in enumerate(exact) if any(isinstance(v, float) for v in sp[2])]
+        if not cand_idx:
+            continue
+        idx = rng.choice(cand_idx)
+        delta = rng.choice([1.5e-6, 3e-6, 4e-6, 2e-5, 1e-4, 1e-3]) * rng.choice([-1, 1])
+        n_cases += check_script(ctx, {"nq": nq, "script_gate": gs, "exact": exact, "reps": reps, "k": k, "idx": idx, "delta": delta})
+    ctx.suite("scripted_pass", cases=n_cases)
+
+
+def check_script(ctx, case):
+    from opensquirrel.decomposer.general_decomposer import Decomposer
+
+    gs, exact, reps, k, idx, delta = (case[x] for x in ("script_gate", "exact", "reps", "k", "idx", "delta"))
+    near = [list(sp) for sp in exact]
+    vals = list(near[idx][2])
+    j = max(i for i, v in enumerate(vals) if isinstance(v, float))
+    vals[j] = vals[j] + delta
+    near[idx] = [near[idx][0], near[idx][1], vals]
+    c = gen.build_circuit(case["nq"], 1, [gs] * reps)
+    before = list(c.ir.statements)
+    proposals = [gate_objs(near if i == k else exact) for i in range(reps)]
+    alone = [impl_check(gen.build_stmt(gs), gate_objs(near if i == k else exact)) for i in range(reps)]
+    state = {"n": 0}
+
+    def dec_fn(self, g):
+        i = state["n"]
+        state["n"] += 1
+        return proposals[i] if i < reps else [g]
+
+    dec = type("D", (Decomposer,), {"decompose": dec_fn})()
+    try:
+        c.decompose(dec)
+        err = None
+    except Exception as e:  # noqa: BLE001
+        err = type(e).__name__
+    ctx.seen(case)
+    first_bad = next((i for i, a in enumerate(alone) if a != "accepted"), None)
+    if first_bad is None and err is not None:
+        ctx.oracle_fail("script", case, f"every proposal is accepted on its own but the pass failed with {err}", None)
+    elif first_bad is not None and err is None:
+        after = list(c.ir.statements)
+        ok, why = oracles.kraus_equivalent(before, after, 1e-9)
+        ctx.oracle_fail("script", case, f"proposal number {first_bad} is rejected on its own ({alone[first_bad]}) but was spliced in during "
+                        f"the pass (earlier occurrences of the same gate had been accepted); circuit equivalent within 1e-9: {ok} {why}", None)
+    elif first_bad is not None:
+        after = list(c.ir.statements)
+        tail = before[first_bad:]
+        if after[-len(tail):] != tail or any(x is not y for x, y in zip(after[-len(tail):], tail)):
+            ctx.oracle_fail("script", case, "statements from the rejected gate on were touched", None)
+    return 1
+
+
 def strip_oids(stmts):
     out = []
     for s in stmts:
@@ -330,7 +401,7 @@ def check_replace(ctx, case, ev, eq):
         ctx.oracle_fail("replace", case, "replacement changed the operation: " + why, eq)
 
 
-SUITES = {"pairs": pair_suite, "loop": loop_suite, "replace": replace_suite}
+SUITES = {"pairs": pair_suite, "loop": loop_suite, "script": script_suite, "replace": replace_suite}
 
 
 def run(ctx, last=None):
@@ -356,6 +427,8 @@ def replay_alone(ctx, suite, case):
         check_pair(ctx, case, g, c, model.call_many([pair_request(g, c)])[0])
     elif suite == "loop":
         check_loop(ctx, case)
+    elif suite == "script":
+        check_script(ctx, case)
     else:
         ev = dc.evaluate(case)
         check_replace(ctx, case, ev, dc.compare_with_model(ctx, "replace", [case], [ev])[0])
@@ -370,7 +443,7 @@ def replay(ctx, payload):
         return framework.replay_nothing(payload)
     if sem_common.is_semantics(suite, case) and "gate" not in case:
         return sem_common.replay(ctx, case)
-    suite = "pairs" if "gate" in case else "loop" if "mode" in case else "replace" if "pass" in case else None
+    suite = "pairs" if "gate" in case else "script" if "script_gate" in case else "loop" if "mode" in case else "replace" if "pass" in case else None
     if suite is None:
         return framework.replay_nothing(payload, "case of no suite of this property")
     # the library may share state between calls (a cache filled by the gates of earlier cases): first the history of the
